@@ -660,7 +660,7 @@ def run_sequence(ctx, k, front, store, validate, hostile, scripted=()):
 
 
 def run(ctx):
-    n = ctx.pick(320, 6000)
+    n = ctx.pick(320, 48000)
     combos = [(f, s, v) for f in ("asyncio", "blocking") for s in ("json", "redis") for v in (False, True)]
     for k in range(n):
         if not ctx.mine(k):
